@@ -14,7 +14,10 @@ same alterations on the real builders on every run and the outcomes are compared
   degree of an instance WITH preprocessed metadata is pinned: `pinned_degree_rejected`,
   `C15Batch.batch_ok_prep`);
 * regression facts for the repaired findings F9j / F9k / F9l (`terminals_*_rejected`,
-  `instances_long_rejected`).
+  `instances_long_rejected`) and, since /repo ca07f07 / fc0321f / 069da9d / c030fca, for the
+  repaired part of F9a and for F9d, F9e, F9i on the batch path (`degree_bits_out_of_range_rejected`,
+  `log_arity_rejected`, `cap_rejected`, `log_blowup_rejected`: the model says `.err`, as the real
+  builders do on the same alterations).
 -/
 import P3R.Props.C15Batch
 
@@ -26,22 +29,35 @@ def g2 := honest_gbatch_2
 def e4 := env_gbatch_4
 def g4 := honest_gbatch_4
 
-/-- F9a, batch path: `degree_bits[i]` is shifted (`1 << ext_db`) and turned into a domain
-(`natural_domain_for_degree(..)`, batch_stark.rs:647-648) before anything compares it with the
-preprocessed metadata or the opened data. -/
+/-- F9a, batch path, what is left after ca07f07: `degree_bits[i] + log_qd` is bounded by the field's
+bit width (31) before the shifts, but `natural_domain_for_degree(..)` needs the two-adicity (27):
+28 ..= 31 - log_qd still panic (instance 0 has `log_qd = 1`, instance 1 `log_qd = 0`). -/
 theorem degree_bits_panics :
-    verifyBatch e2 { g2 with degreeBits := [64, 4] } = .panic ∧
     verifyBatch e2 { g2 with degreeBits := [28, 4] } = .panic ∧
-    verifyBatch e2 { g2 with degreeBits := [3, 28] } = .panic := by
-  refine ⟨?_, ?_, ?_⟩ <;> decide +kernel
+    verifyBatch e2 { g2 with degreeBits := [30, 4] } = .panic ∧
+    verifyBatch e2 { g2 with degreeBits := [3, 28] } = .panic ∧
+    verifyBatch e2 { g2 with degreeBits := [3, 31] } = .panic := by
+  refine ⟨?_, ?_, ?_, ?_⟩ <;> decide +kernel
 
-/-- … and `create_disjoint_domain(1 << (base_db + log_qd))` (batch_stark.rs:722): a degree inside
-the two-adicity whose quotient domain is not. With a two-adicity above the word size the shift
-itself overflows. -/
+/-- F9a-1 repaired (ca07f07), batch path: a `degree_bits` entry at or above the word size (the old
+shift overflow), or whose quotient domain exceeds the field's bit width, is rejected with an error
+(`C15Batch.batch_degree_out_of_range_err` for every shape). The last shape is the one that used
+to overflow `1 << (base_db + log_qd)` under a two-adicity above the word size. -/
+theorem degree_bits_out_of_range_rejected :
+    verifyBatch e2 { g2 with degreeBits := [64, 4] } = .err ∧
+    verifyBatch e2 { g2 with degreeBits := [63, 4] } = .err ∧
+    verifyBatch e2 { g2 with degreeBits := [2 ^ 64 - 1, 4] } = .err ∧
+    verifyBatch e2 { g2 with degreeBits := [31, 4] } = .err ∧
+    verifyBatch e2 { g2 with degreeBits := [3, 32] } = .err ∧
+    verifyBatch { e2 with base := { e2.base with twoAdicity := 100 } } { g2 with degreeBits := [63, 4] } = .err := by
+  refine ⟨?_, ?_, ?_, ?_, ?_, ?_⟩ <;> decide +kernel
+
+/-- … and `create_disjoint_domain(1 << (base_db + log_qd))`: a degree inside the two-adicity whose
+quotient domain is not (27 + 1 = 28: within the bit width, so the range test of ca07f07 lets it
+through). -/
 theorem quotient_domain_panics :
-    verifyBatch e2 { g2 with degreeBits := [27, 4] } = .panic ∧
-    verifyBatch { e2 with base := { e2.base with twoAdicity := 100 } } { g2 with degreeBits := [63, 4] } = .panic := by
-  refine ⟨?_, ?_⟩ <;> decide +kernel
+    verifyBatch e2 { g2 with degreeBits := [27, 4] } = .panic := by
+  decide +kernel
 
 /-- The AIR's own symbolic evaluation is called with the common data's preprocessed width and
 lookup contexts (`declares_interactions`, `get_log_num_quotient_chunks`, batch_stark.rs:485-498);
@@ -52,24 +68,30 @@ theorem air_eval_panics :
     verifyBatch { e2 with airs := [{ width := 2, opensNext := true, declares := some false, logQd := some 64 }, e2.air 1] } g2 = .panic := by
   refine ⟨?_, ?_, ?_⟩ <;> decide +kernel
 
-def q2 : QueryShape := { inputProof := [[2, 3], [4, 4, 4], [4]], steps := [1, 1, 1, 1] }
+def q2 : QueryShape :=
+  { inputProof := [[2, 3], [4, 4, 4], [4]], steps := [1, 1, 1, 1], siblings := [1, 1, 1, 1] }
 
-/-- F9d, batch path: `log_arity` at target allocation (`BatchProofTargets::new`). -/
-theorem log_arity_panics :
-    verifyBatch e2 { g2 with fri := { g2.fri with queries := [{ q2 with steps := [255, 1, 1, 1] }, q2] } } = .panic ∧
-    verifyBatch e2 { g2 with fri := { g2.fri with queries := [{ q2 with steps := [28, 1, 1, 1] }, q2] } } = .panic := by
-  refine ⟨?_, ?_⟩ <;> decide +kernel
-
-/-- F9e, batch path: caps of the trace / quotient / global preprocessed commitment. -/
-theorem cap_panics :
-    verifyBatch e2 { g2 with traceCap := 0 } = .panic ∧
-    verifyBatch e2 { g2 with quotientCap := 3 } = .panic ∧
-    verifyBatch e2 { g2 with prep := g2.prep.map fun g => { g with cap := 0 } } = .panic := by
+/-- F9d repaired (fc0321f), batch path: an out-of-range `log_arity`, or a sibling count that is not
+`2^log_arity - 1`, is an error (before: shift overflow / 2^30-target allocation while the targets
+were allocated in `BatchProofTargets::new`). -/
+theorem log_arity_rejected :
+    verifyBatch e2 { g2 with fri := { g2.fri with queries := [{ q2 with steps := [255, 1, 1, 1] }, q2] } } = .err ∧
+    verifyBatch e2 { g2 with fri := { g2.fri with queries := [{ q2 with steps := [28, 1, 1, 1] }, q2] } } = .err ∧
+    verifyBatch e2 { g2 with fri := { g2.fri with queries := [q2, { q2 with siblings := [1, 1, 1, 2] }] } } = .err := by
   refine ⟨?_, ?_, ?_⟩ <;> decide +kernel
 
-/-- F9i, batch path: `log_blowup = 27` (log_max_height 31) passes the field-width check and fails `two_adic_generator`. -/
-theorem log_blowup_panics :
-    verifyBatch { e2 with base := { e2.base with logBlowup := 27 } } g2 = .panic := by decide +kernel
+/-- F9e repaired (069da9d), batch path: empty / non-power-of-two caps of the trace / quotient /
+global preprocessed commitment are errors. -/
+theorem cap_rejected :
+    verifyBatch e2 { g2 with traceCap := 0 } = .err ∧
+    verifyBatch e2 { g2 with quotientCap := 3 } = .err ∧
+    verifyBatch e2 { g2 with prep := g2.prep.map fun g => { g with cap := 0 } } = .err := by
+  refine ⟨?_, ?_, ?_⟩ <;> decide +kernel
+
+/-- F9i repaired (c030fca), batch path: `log_blowup = 27` (log_max_height 31) passes the field-width
+check and is now refused by the two-adicity check (before: `two_adic_generator`'s assertion). -/
+theorem log_blowup_rejected :
+    verifyBatch { e2 with base := { e2.base with logBlowup := 27 } } g2 = .err := by decide +kernel
 
 /-- F9n: the circuit-table AIRs are rebuilt from the proof's table metadata before anything bounds
 the counts (`rows = usize::MAX`: `num_ops * preprocessed_lane_width()` overflows). The metadata
@@ -147,7 +169,7 @@ theorem single_alterations_rejected :
 
 /-- The full statements of the property are false of the batch builders. -/
 theorem no_panic_full_false : ¬ ∀ (e : BatchEnv) (s : BatchShape), verifyBatch e s ≠ .panic :=
-  fun h => h e2 { g2 with degreeBits := [64, 4] } degree_bits_panics.1
+  fun h => h e2 { g2 with degreeBits := [28, 4] } degree_bits_panics.1
 
 theorem malformed_rejected_full_false :
     ¬ ∀ (e : BatchEnv) (s : BatchShape), s ≠ g2 → verifyBatch e s = .err := by
@@ -156,15 +178,17 @@ theorem malformed_rejected_full_false :
   rw [query_dropped_accepted] at this
   exact absurd this (by decide)
 
-/-- The panic witnesses falsify the guard hypothesis, the accepted ones satisfy it. -/
+/-- The panic witnesses falsify the guard hypothesis, the accepted ones satisfy it, and so do the
+shapes of the repaired cap / `log_arity` findings (plain errors now). -/
 theorem witnesses_falsify_guards :
-    BatchPanicGuards e2 { g2 with degreeBits := [64, 4] } = false ∧
+    BatchPanicGuards e2 { g2 with degreeBits := [28, 4] } = false ∧
     BatchPanicGuards e2 { g2 with degreeBits := [27, 4] } = false ∧
-    BatchPanicGuards e2 { g2 with traceCap := 0 } = false ∧
+    BatchPanicGuards e2 { g2 with traceCap := 0 } = true ∧
+    BatchPanicGuards e2 { g2 with fri := { g2.fri with queries := [{ q2 with steps := [255, 1, 1, 1] }, q2] } } = true ∧
     BatchPanicGuards { e2 with airs := [{ width := 2, opensNext := true, declares := none, logQd := some 1 }, e2.air 1] } g2 = false ∧
     P3PanicGuards { p3_batch with airsBuild := false } env_batch meta_batch honest_batch = false ∧
     BatchPanicGuards e2 { g2 with fri := { g2.fri with queries := [q2] } } = true ∧
     BatchPanicGuards e4 { g4 with degreeBits := [0, 4, 3, 3] } = true := by
-  refine ⟨?_, ?_, ?_, ?_, ?_, ?_, ?_⟩ <;> decide +kernel
+  refine ⟨?_, ?_, ?_, ?_, ?_, ?_, ?_, ?_⟩ <;> decide +kernel
 
 end P3R.Witness.C15Batch
